@@ -1,0 +1,12 @@
+//go:build verif
+
+package client
+
+import "net/http"
+
+// Exports for the external verification harness (build tag "verif").
+
+// VerifNewClient builds a client over a caller-supplied HTTP client (in-process transport).
+func VerifNewClient(address string, c *http.Client, logLength int) *PcClient {
+	return newClient(address, c, logLength)
+}
